@@ -154,7 +154,8 @@ def run(d, module, cfg_text, workers=16, timeout=900, simulate=None, env=None, d
 
 
 def sany(path):
-    cmd = ["java", "-DTLA-Library=" + SPEC, "-cp", JAR + ":" + DEPS, "tla2sany.SANY", path]
+    lib = SPEC + os.pathsep + "/opt/veriftools/tlapm/lib/tlapm/stdlib"      # TLAPS.tla for the proof modules
+    cmd = ["java", "-DTLA-Library=" + lib, "-cp", JAR + ":" + DEPS, "tla2sany.SANY", path]
     p = subprocess.run(cmd, cwd=os.path.dirname(path), stdout=subprocess.PIPE, stderr=subprocess.STDOUT,
                        text=True)
     ok = p.returncode == 0 and "error" not in p.stdout.lower().replace("errors: 0", "")
